@@ -1,6 +1,6 @@
 (* Properties/C01.v -- Encode -> symbol -> decode returns exactly the original bytes (what is a theorem so far). *)
 From Coq Require Import Arith ZArith NArith List Bool.
-From DM Require Import Spec.Stream16022 Proofs.EncAscii Generated.Symbols Generated.ModeTables Model.PlannerRun Spec.GF256 Model.Outcome Model.SymbolList Model.RSEnc Model.Dec Model.Enc Model.Api
+From DM Require Import Spec.Stream16022 Proofs.EncAscii Proofs.PlanAscii Model.Planner Generated.Symbols Generated.ModeTables Model.PlannerRun Spec.GF256 Model.Outcome Model.SymbolList Model.RSEnc Model.Dec Model.Enc Model.Api
   Proofs.Pipeline.
 Import ListNotations.
 
@@ -45,6 +45,16 @@ Print Assumptions C01_ascii_plan_roundtrip.
 Example C01_ascii_plan_example :
   optimize_fn stable_sorter [72; 105; 49; 50; 51; 200] 0 sl_default 1 = Ok (Some [(0, Ascii)]).
 Proof. vm_compute. reflexivity. Qed.
+
+(* ... and unconditionally for the ASCII-only configuration: with only the ASCII mode enabled the optimiser can only
+   answer "stay in ASCII" (Proofs/PlanAscii.v, for every sort that returns elements of its input), so for every byte
+   string, every symbol list and every such sort the data codewords decode back to the input *)
+Theorem C01_ascii_only_roundtrip : forall sorter data symbols cw s,
+  (forall k l l', sorter symbols k l = Ok l' -> incl l' l) -> bytes_ok data = true ->
+  encode_data_internal (optimize_fn sorter) data symbols None 1 false false = Ok (cw, s) ->
+  decode_data cw = Ok data.
+Proof. intros so d sy cw s HS OK H. exact (proj2 (ascii_only_roundtrip so d sy cw s HS OK H)). Qed.
+Print Assumptions C01_ascii_only_roundtrip.
 
 (* NOT a theorem for the other plans: decode_data (data codewords of encode) = Ok input under arbitrary plans of the
    optimiser (the encoder side of C02 for C40/Text/X12/EDIFACT/Base256 runs).  The check evaluates it on every case:
